@@ -40,6 +40,7 @@ LawOk(r, ob) ==
       [] law = "istrue-or-arith-err" -> (ob.out.o = "ok" /\ ob.out.v = VTrue) \/ ob.out.o = "err"
       [] law = "rematch" -> ob.out.o = "ok" /\ ob.out.v = VBool(ReSearch(r.extra.re, r.bind.s.s))
       [] law = "reerr" -> ob.out.o = "err"
+      [] law = "cycle" -> ob.out.o = "err"      \* the generator built a reference cycle that evaluation must enter (C12): it ends in an error
       [] law = "recapture" ->
             IF ReSearch(r.extra.re, r.bind.s.s)
             THEN /\ ob.out.o = "ok" /\ ob.out.v.t = "list" /\ Len(ob.out.v.s) >= 1 /\ ob.out.v.s[1].t = "str"
